@@ -136,6 +136,7 @@ class Index:
                     p = os.path.join(dp, fn)
                     rel = os.path.relpath(p, self.root)
                     self.modules[rel] = ModuleInfo(p, rel)
+        self.relocated = {}
         self.enums = {}
         self.enums_qual = {}
         amb = set()
@@ -167,6 +168,7 @@ class Index:
         # private attributes are identified by role and renamed to the names the rules use (see core/canon.py)
         from . import canon
         self.renamed = canon.apply(self, canon.discover(self))
+        self.renamed.update({k: "relocated helper" for k in canon.relocate_helpers(self)})
 
     # -- enumeration -----------------------------------------------------------------
     def all_classes(self):
@@ -191,6 +193,17 @@ class Index:
                 cands = pref
         if len(cands) == 1:
             return cands[0]
+        if not cands and "." in qual:
+            # a nested class hoisted to module level (Outer.Inner.Chunk -> _InnerChunk): the one class of the module where
+            # the outer class lives -- or lived -- whose name ends with the nested name
+            last = qual.rsplit(".", 1)[-1].lstrip("_")
+            outer = qual.split(".", 1)[0]
+            mods = {c.module.rel for c in self.all_classes() if c.qual == outer and (not hint or c.module.rel.startswith(hint))}
+            near = [c for c in self.all_classes() if c.module.rel in mods and "." not in c.qual and c.name.lstrip("_").endswith(last)
+                    and c.name.lstrip("_") != outer]
+            if len(near) == 1:
+                self.relocated[spec] = near[0].site
+                return near[0]
         if not cands:
             raise AnchorMissing(f"class {spec!r} not found in {self.root}")
         raise AnchorMissing(f"class {spec!r} is ambiguous: {[c.site for c in cands]}")
@@ -202,6 +215,13 @@ class Index:
             cq, _, name = qual.rpartition(".")
             c = self.find_class((hint + ":" if hint else "") + cq)
             f = c.method(name, kind)
+            if f is None and kind is None:
+                # a (static) helper method turned into a module-level function of the same module: same name, or the name
+                # with a suffix (_translate -> _translate_resource)
+                fs = [g for n_, g in c.module.functions.items() if n_ == name or n_.startswith(name + "_")]
+                if len(fs) == 1:
+                    self.relocated[spec] = fs[0].site
+                    return fs[0]
             if f is None:
                 raise AnchorMissing(f"method {spec!r} not found in {c.site}")
             return f
